@@ -26,8 +26,8 @@ DEFAULTS = {
     "nested": "[[1], {'a': (2, [3])}]",
 }
 ANN = {"list": "List[int]", "dictlist": "Dict[str, List[int]]", "tuplemix": "Tuple[List[int], Dict[str, int]]",
-       "set": "Set[int]", "nested": "list", "factory": "List[int]", "plainlist": "list", "sharedfactory": "List[int]"}
-HEADER = ("import utype\nfrom utype import Schema, DataClass, Field, Options\n"
+       "set": "Set[int]", "nested": "list", "factory": "List[int]", "plainlist": "list", "sharedfactory": "List[int]", "laxlist": "list"}
+HEADER = ("import utype\nfrom utype import Schema, DataClass, Field, Options, Lax\n"
           "from typing import List, Dict, Tuple, Set, Generator\n")
 
 
@@ -45,13 +45,15 @@ def decl_source(d):
                 lines.append("    %s: %s = Field(default_factory=list)" % (name, ANN[dk]))
             elif dk == "sharedfactory":
                 lines.append("    %s: %s = Field(default_factory=lambda: SHARED_%s)" % (name, ANN[dk], name))
+            elif dk == "laxlist":       # a bare list (no element type: nothing rebuilds the container) cut to length by a lax constraint
+                lines.append("    %s: list = Field(default_factory=list, max_length=Lax(2))" % name)
             elif how == "field":
                 lines.append("    %s: %s = Field(default=%s)" % (name, ANN[dk], DEFAULTS[dk]))
             else:
                 lines.append("    %s: %s = %s" % (name, ANN[dk], DEFAULTS[dk]))
     else:
         params = ", ".join("%s: %s = %s" % (n, ANN[dk], ("utype.Param(default_factory=lambda: SHARED_%s)" % n) if dk == "sharedfactory"
-                                            else DEFAULTS[dk]) for n, dk, how in d["fields"])
+                                            else "utype.Param(default_factory=list, max_length=Lax(2))" if dk == "laxlist" else DEFAULTS[dk]) for n, dk, how in d["fields"])
         names = ", ".join(n for n, _, _ in d["fields"])
         if d["kind"] == "func":
             lines += ["@utype.parse", "def T(%s):" % params, "    return {%s}" % ", ".join("'%s': %s" % (n, n) for n, _, _ in d["fields"])]
@@ -74,13 +76,13 @@ def class_defaults(d, T):
     if d["kind"] in ("schema", "dataclass"):
         for name, dk, how in d["fields"]:
             f = T.__parser__.fields[name]
-            out.append(None if dk == "factory" else build.ns["SHARED_%s" % name] if dk == "sharedfactory" else f.field.default)
+            out.append(None if dk in ("factory", "laxlist") else build.ns["SHARED_%s" % name] if dk == "sharedfactory" else f.field.default)
     else:
         import inspect
         raw = getattr(T, "__wrapped__", None)
         sig = inspect.signature(raw or T)
         for name, dk, how in d["fields"]:
-            out.append(build.ns["SHARED_%s" % name] if dk == "sharedfactory" else sig.parameters[name].default)
+            out.append(build.ns["SHARED_%s" % name] if dk == "sharedfactory" else None if dk == "laxlist" else sig.parameters[name].default)
     return out
 
 
@@ -173,10 +175,11 @@ PROVIDE = {
     "nested": [lambda: [[7], {"z": (1, [2])}]],
     "factory": [lambda: ["6"], lambda: [6, 7]],
     "sharedfactory": [lambda: ["6"], lambda: [6, 7]],
+    "laxlist": [lambda: [1, 2, 3, 4], lambda: [5], lambda: [[1], [2], [3]]],
     "plainlist": [lambda: [1, [2]]],
 }
 INVALID = {"list": lambda: ["x"], "dictlist": lambda: {"a": ["x"]}, "tuplemix": lambda: (["x"], {}), "set": lambda: {"x"},
-           "factory": lambda: ["x"], "sharedfactory": lambda: ["x"], "nested": lambda: 5j, "plainlist": lambda: 5j}
+           "factory": lambda: ["x"], "sharedfactory": lambda: ["x"], "laxlist": lambda: 5j, "nested": lambda: 5j, "plainlist": lambda: 5j}
 
 
 def mutate(val, rng):
@@ -280,7 +283,7 @@ def main():
         raise MachineryError("P_NoAlias not falsified when copy_value shares tuples: property layer is vacuous")
     ck.count("tuple_sharing_variant_refuted_by_TLC")
     kinds = ["schema", "dataclass", "func", "gen"]
-    defkinds = ["list", "dictlist", "tuplemix", "set", "nested", "factory", "sharedfactory", "plainlist"]
+    defkinds = ["list", "dictlist", "tuplemix", "set", "nested", "factory", "sharedfactory", "laxlist", "plainlist"]
     decls = []
     for k in kinds:
         for dk in defkinds:
@@ -288,7 +291,7 @@ def main():
                 continue
             if dk == "plainlist":
                 continue
-            for how in (("plain", "field") if k in ("schema", "dataclass") and dk not in ("factory", "sharedfactory") else ("plain",)):
+            for how in (("plain", "field") if k in ("schema", "dataclass") and dk not in ("factory", "sharedfactory", "laxlist") else ("plain",)):
                 decls.append({"kind": k, "fields": [("a", dk, how)]})
         decls.append({"kind": k, "fields": [("a", "list", "plain"), ("b", "dictlist", "plain"), ("c", "tuplemix", "plain")]})
         decls.append({"kind": k, "fields": [("a", "nested", "plain"), ("b", "set", "plain")]})
